@@ -247,7 +247,8 @@ def rule_write(ctx):
                     continue
                 args, kwargs = ev.data["args"], ev.data["kwargs"]
                 tagarg = args[1] if part and len(args) > 1 else (args[0] if args else None)
-                if tagarg is None or not (isinstance(tagarg, Term) and is_call(tagarg, method="tag_name")):
+                right_tag = isinstance(tagarg, Const) and tagarg.v == lower_first(ci.name)  # tag_name() evaluated (e.g. inherited from a private mixin)
+                if tagarg is None or not ((isinstance(tagarg, Term) and is_call(tagarg, method="tag_name")) or right_tag):
                     ctx.violated("C03.WRITE", inst, f"element tag is not derived from tag_name(): {show(tagarg) if tagarg else None}", fi=f, text="tag")
                     bad = True
                 for k, v in o.attrs.items():
